@@ -972,3 +972,171 @@ func TestVF_C11_SilentPeer(t *testing.T) {
 	st.Case(vfshared.Fingerprint("silentpeer"), true, "peer_vanished_silently")
 	st.Sample(map[string]any{"scenario": "one of two peers stops answering, connection stays open"})
 }
+
+// ---- updates, dials and queries in parallel (real goroutines on real cores)
+
+type c11QuickSession struct{ id string }
+
+func (s *c11QuickSession) IsClosed() bool             { return false }
+func (s *c11QuickSession) Close()                     {}
+func (s *c11QuickSession) CloseChan() <-chan struct{} { return nil }
+func (s *c11QuickSession) Open() (net.Conn, error) {
+	return nil, fmt.Errorf("session %s: no stream available", s.id)
+}
+func (s *c11QuickSession) State() *session.MuxSessionInfo {
+	return &session.MuxSessionInfo{State: session.Connected}
+}
+func (s *c11QuickSession) Describe() string { return "session " + s.id }
+func (s *c11QuickSession) GetConnectionInfo() (net.Addr, net.Addr) {
+	return &net.TCPAddr{}, &net.TCPAddr{}
+}
+
+// TestVF_C11_Parallel: session-list updates (as the mux manager delivers them: one at a time, but concurrently with
+// everything else), dials and CanMakeCalls queries run on separate goroutines at full speed. Every call must return (a
+// watchdog probes the map lock otherwise) and after the last update the dialable endpoints equal the last list.
+func TestVF_C11_Parallel(t *testing.T) {
+	const part = "parallel"
+	if rp := vfshared.ReplayPart(); rp != "" && rp != part {
+		t.Skip()
+	}
+	st := vfshared.NewStats("C11", part, "real parallelism: one goroutine applies 2 000-8 000 session-list updates (random subsets of 6 sessions, also empty) while 2-6 goroutines dial random keys through the real map dialer and 2 query CanMakeCalls; oracle: everything returns within the watchdog (violation only if the map lock is verifiably held), no panic, and after the last update the dialable set equals the last list; non-trivial = every case")
+	defer st.Flush()
+	type pCase struct {
+		Dialers int `json:"dialers"`
+		Updates int `json:"updates"`
+		Mix     int `json:"mix"`
+	}
+	run := func(tt interface{ Fatalf(string, ...any) }, c pCase) {
+		ctx, cancel := context.WithCancel(context.Background())
+		defer cancel()
+		mcc, err := NewMultiClientConn(ctx, fmt.Sprintf("vf-c11p-%d", c.Mix), MakeDialOptions(nil, metrics.GetGRPCClientMetrics("outbound"))...)
+		if err != nil {
+			tt.Fatalf("HARNESS: %v", err)
+		}
+		all := []string{"0", "1", "2", "3", "4", "5"}
+		stop := make(chan struct{})
+		var wg sync.WaitGroup
+		panics := make(chan string, 16)
+		guard := func(f func()) {
+			defer wg.Done()
+			defer func() {
+				if r := recover(); r != nil {
+					panics <- fmt.Sprint(r)
+				}
+			}()
+			f()
+		}
+		dialer := mcc.getMapDialer()
+		for k := 0; k < c.Dialers; k++ {
+			wg.Add(1)
+			go guard(func() {
+				x := uint32(k*31 + c.Mix)
+				for {
+					select {
+					case <-stop:
+						return
+					default:
+					}
+					x = x*1664525 + 1013904223
+					if cn, err := dialer(context.Background(), all[(x>>10)%6]); err == nil && cn != nil {
+						_ = cn.Close()
+					}
+				}
+			})
+		}
+		for k := 0; k < 2; k++ {
+			wg.Add(1)
+			go guard(func() {
+				for {
+					select {
+					case <-stop:
+						return
+					default:
+					}
+					_ = mcc.CanMakeCalls()
+				}
+			})
+		}
+		var last map[string]session.ManagedMuxSession
+		updDone := make(chan struct{})
+		go func() {
+			defer close(updDone)
+			defer func() {
+				if r := recover(); r != nil {
+					panics <- fmt.Sprint(r)
+				}
+			}()
+			x := uint32(c.Mix)*2654435761 + 1
+			for i := 0; i < c.Updates; i++ {
+				x = x*1664525 + 1013904223
+				m := map[string]session.ManagedMuxSession{}
+				for b, id := range all {
+					if (x>>(8+b))&1 == 1 {
+						m[id] = &c11QuickSession{id: id}
+					}
+				}
+				mcc.OnConnectionListUpdate(m)
+				last = m
+			}
+		}()
+		select {
+		case <-updDone:
+		case <-time.After(60 * time.Second):
+			if !mcc.connMapLock.TryLock() {
+				p := vfshared.WriteReplay("C11", part, c)
+				msg := "session-list updates running in parallel with dials and queries stopped making progress for 60 s and the connection map's lock is held"
+				st.Violation(p, msg)
+				st.Flush()
+				close(stop)
+				tt.Fatalf("C11 violated: %s (replay %s)", msg, p)
+			}
+			mcc.connMapLock.Unlock()
+			close(stop)
+			tt.Fatalf("HARNESS-INCONCLUSIVE: updates did not finish within 60 s but the lock is free")
+		}
+		close(stop)
+		wg.Wait()
+		select {
+		case p := <-panics:
+			rp := vfshared.WriteReplay("C11", part, c)
+			st.Violation(rp, "panic under concurrent use: "+p)
+			tt.Fatalf("C11 violated: panic under concurrent use: %s (replay %s)", p, rp)
+		default:
+		}
+		mcc.connMapLock.RLock()
+		var got []string
+		for id := range mcc.connMap {
+			got = append(got, id)
+		}
+		mcc.connMapLock.RUnlock()
+		var want []string
+		for id := range last {
+			want = append(want, id)
+		}
+		sort.Strings(got)
+		sort.Strings(want)
+		if fmt.Sprint(got) != fmt.Sprint(want) || mcc.CanMakeCalls() != (len(want) > 0) {
+			rp := vfshared.WriteReplay("C11", part, c)
+			msg := fmt.Sprintf("after %d updates applied in parallel with dials the client connection may dial %v (CanMakeCalls=%v), the last delivered list is %v", c.Updates, got, mcc.CanMakeCalls(), want)
+			st.Violation(rp, msg)
+			tt.Fatalf("C11 violated: %s (replay %s)", msg, rp)
+		}
+		st.Case(vfshared.Fingerprint(fmt.Sprintf("%+v", c)), true)
+		if st.WantSample() {
+			st.Sample(c)
+		}
+	}
+	if f := vfshared.ReplayFile(); f != "" {
+		var c pCase
+		if _, err := vfshared.LoadReplay(f, &c); err != nil {
+			t.Fatal(err)
+		}
+		for i := 0; i < 5; i++ {
+			run(t, c)
+		}
+		return
+	}
+	rapid.Check(t, func(rt *rapid.T) {
+		run(rt, pCase{Dialers: rapid.IntRange(2, 6).Draw(rt, "dialers"), Updates: rapid.IntRange(2000, 8000).Draw(rt, "updates"), Mix: rapid.IntRange(0, 1<<20).Draw(rt, "mix")})
+	})
+}
